@@ -5,7 +5,7 @@ W = {'rect': 0.25, 'oct': 0.35, 'share': 0.1, 'lat': 0.1, 'gp': 0.2, 'boxes': 0.
 
 
 def run(rep, tier, seed):
-    relrun.run_rel(rep, 'C07', tier, seed, relprops.build_c07, W, 120 if tier == 'quick' else 3000,
+    relrun.run_rel(rep, 'C07', tier, seed, relprops.build_c07, W, 220 if tier == 'quick' else 3000,
                    'each group = 4 operations x (base operands, rewritten operands: ring rotation, reversal, repeated vertices, explicit '
                    'closing point, hole and part permutation, Polygon instead of MultiPolygon) + the four trait impls on the same first '
                    'polygons, which must return identical values.')
